@@ -5,6 +5,8 @@ import Mathlib.Data.List.Basic
 import Mathlib.Data.List.Range
 import Mathlib.Tactic.Ring
 import Mathlib.Tactic.Linarith
+import Pms.Lemmas.Rint
+import Mathlib.Algebra.Order.BigOperators.Group.List
 
 /-! Lemmas for C20: lists sorted by a key, the row walk of `cal_neighbors`, `np.unique`, the volume matrix. -/
 namespace Pms.Voro
@@ -76,7 +78,9 @@ theorem drop_take_sorted (l : List β) (hs : l.Pairwise fun a b => key a ≤ key
     rw [hl', List.filter_filter]
     apply List.filter_congr
     intro b _
-    by_cases h : key b = s <;> simp [h] <;> omega
+    by_cases h : key b = s
+    · simp [h]
+    · simp [h]; omega
   have := split_sorted key l' hs' (s + 1)
   rw [h1] at this
   rw [this, List.take_left]
@@ -94,7 +98,7 @@ end Sorted
 
 theorem mem_uniqueNat (l : List ℕ) (a : ℕ) : a ∈ uniqueNat l ↔ a ∈ l := by
   unfold uniqueNat
-  simp only [List.mem_filter, List.mem_range, List.contains_iff_mem, decide_eq_true_eq]
+  simp only [List.mem_filter, List.mem_range, List.contains_iff_mem]
   exact ⟨fun h => h.2, fun h => ⟨Nat.lt_succ_of_le (le_maxCn h), h⟩⟩
 
 /-- `np.unique` of a list whose values are exactly `1..N` -/
@@ -226,6 +230,341 @@ theorem walk_wf (raw : Raw α) (N : ℕ) (h : WF raw N) :
       rw [← hzt, List.map_take, List.map_drop, hz2]
     rw [hnb, hws, List.length_map]
 
+theorem frameRows_wf (raw : Raw α) (N : ℕ) (h : WF raw N) :
+    Impl.frameRows raw = .ok ((List.range N).map (rowOf raw)) := by
+  unfold Impl.frameRows
+  simp only
+  have hu : uniqueNat ((shiftIds raw.nlist).map (·.1)) = List.range' 1 N := by
+    rw [firsts_shiftIds]
+    apply uniqueNat_cover
+    · simp
+    · intro a ha
+      obtain ⟨p, hp, rfl⟩ := List.mem_map.mp ha
+      have := h.bound p hp; omega
+    · intro a h1 h2
+      obtain ⟨j, hj⟩ := h.cover (a - 1) (by omega)
+      exact List.mem_map.mpr ⟨(a - 1, j), hj, by simp; omega⟩
+  rw [hu]
+  have := walk_wf raw N h N 0 (by omega)
+  simp only [Nat.zero_add, Nat.not_lt_zero, decide_false, List.filter_false, List.length_nil] at this
+  rw [this, List.range_eq_range']
+
+omit [OfNat α 0] in
+theorem length_adjW (raw : Raw α) (h : raw.weights.length = raw.nlist.length) (i : ℕ) :
+    (adjW raw i).length = (adj raw i).length := by
+  unfold adjW adj
+  rw [List.length_map, List.length_map]
+  have hz1 : (raw.nlist.zip raw.weights).map (·.1) = raw.nlist := List.map_fst_zip (by rw [h])
+  conv_rhs => rw [← hz1, List.filter_map, List.length_map]
+  rfl
+
+theorem range_map_rowLine (n : ℕ) (f : ℕ → List String) :
+    (List.range n).map (fun i => rowLine i (f i)) = renderRows 0 ((List.range n).map f) := by
+  rw [renderRows_eq_map]
+  simp only [List.length_map, List.length_range, Nat.zero_add]
+  apply List.map_congr_left
+  intro i hi
+  have hi' := List.mem_range.mp hi
+  rw [List.getD_eq_getElem?_getD, List.getElem?_map, List.getElem?_range hi']
+  rfl
+
+theorem nbLines_wf (raw : Raw α) (N : ℕ) :
+    (Gen.Voro.hdrNeighbor :: ((List.range N).map (rowOf raw)).map Row.nbLine) = Spec.neighborFrame raw N := by
+  unfold Spec.neighborFrame adjTable
+  rw [← lines_eq_render N (fun i => (adj raw i).length) (adj raw) (fun _ _ => rfl), List.map_map]
+  have hh : Gen.Voro.hdrNeighbor = header := rfl
+  rw [hh]
+  congr 1
+  apply List.map_congr_left
+  intro i _
+  simp [Row.nbLine, rowOf, idToks, idToksOff, Function.comp_def]
+
+theorem wLines_wf (fmt : ℕ → α → String) (ndim : ℕ) (raw : Raw α) (N : ℕ)
+    (h : raw.weights.length = raw.nlist.length) :
+    (bondHeader ndim :: ((List.range N).map (rowOf raw)).map (Row.wLine fmt)) = Spec.bondFrame fmt ndim raw N := by
+  unfold Spec.bondFrame renderTok
+  rw [← range_map_rowLine, List.map_map]
+  congr 1
+  apply List.map_congr_left
+  intro i _
+  simp [Row.wLine, rowOf, rowLine, Gen.Voro.wDecimals, length_adjW raw h i]
+
+theorem oLines_wf (fmt : ℕ → α → String) (raw : Raw α) (N : ℕ) :
+    ((List.range N).map (rowOf raw)).map (Row.oLine fmt) = Spec.overallRows fmt raw N := by
+  unfold Spec.overallRows
+  rw [List.map_map]
+  apply List.map_congr_left
+  intro i _
+  simp [Row.oLine, rowOf, Gen.Voro.volDecimals]
+
+/-- every frame well-formed (with its own particle number `volumes.length`): the three files are the Spec frames -/
+theorem framesLines_wf (fmt : ℕ → α → String) (ndim : ℕ) (frames : List (Raw α))
+    (h : ∀ raw ∈ frames, WF raw raw.volumes.length) :
+    Impl.framesLines fmt ndim frames =
+      .ok (frames.flatMap (fun raw => Spec.neighborFrame raw raw.volumes.length),
+           frames.flatMap (fun raw => Spec.bondFrame fmt ndim raw raw.volumes.length),
+           frames.flatMap (fun raw => Spec.overallRows fmt raw raw.volumes.length)) := by
+  induction frames with
+  | nil => rfl
+  | cons raw rest ih =>
+    have hw := h raw List.mem_cons_self
+    rw [Impl.framesLines, frameRows_wf raw _ hw]
+    simp only
+    rw [ih fun r hr => h r (List.mem_cons_of_mem _ hr)]
+    simp only [List.flatMap_cons]
+    rw [nbLines_wf, wLines_wf fmt ndim raw _ hw.wlen, oLines_wf]
+
+/-! ### the guard -/
+
+theorem walk_ok (ids : List (ℕ × ℕ)) (w vol : List α) (firsts : List ℕ) :
+    ∀ (us : List ℕ) (i nn : ℕ) (rows : List (Row α)),
+      Impl.walk ids w vol firsts us i nn = .ok rows → us = List.range' (i + 1) us.length ∧ rows.length = us.length := by
+  intro us
+  induction us with
+  | nil => intro i nn rows h; simp [Impl.walk] at h; simp [← h]
+  | cons a t ih =>
+    intro i nn rows h
+    rw [Impl.walk] at h
+    split at h
+    · simp at h
+    · rename_i hg
+      simp only at h
+      split at h
+      · simp at h
+      · rename_i rest hrest
+        simp only [Except.ok.injEq] at h
+        obtain ⟨h1, h2⟩ := ih _ _ _ hrest
+        have ha : a = i + 1 := by
+          simp only [Gen.Voro.guardFails, Bool.or_eq_true, bne_iff_ne, ne_eq, not_or, not_not] at hg
+          omega
+        subst h
+        refine ⟨?_, by simp [h2]⟩
+        rw [List.length_cons, List.range'_succ, ← ha, ha]
+        congr 1
+
+theorem walk_error (ids : List (ℕ × ℕ)) (w vol : List α) (firsts : List ℕ) :
+    ∀ (us : List ℕ) (i nn : ℕ) (e : String),
+      Impl.walk ids w vol firsts us i nn = .error e → e = "neighbor list not sorted" := by
+  intro us
+  induction us with
+  | nil => intro i nn e h; simp [Impl.walk] at h
+  | cons a t ih =>
+    intro i nn e h
+    rw [Impl.walk] at h
+    split at h
+    · simp only [Except.error.injEq] at h; exact h.symm
+    · simp only at h
+      split at h
+      · rename_i e' he'
+        simp only [Except.error.injEq] at h
+        subst h
+        exact ih _ _ _ he'
+      · simp at h
+
+/-- whenever the guard lets a frame through, the first indices that occur are exactly `0 .. K-1` for the number `K`
+of rows written -/
+theorem frameRows_ok_cover (raw : Raw α) (rows : List (Row α)) (h : Impl.frameRows raw = .ok rows) (a : ℕ) :
+    (∃ j, (a, j) ∈ raw.nlist) ↔ a < rows.length := by
+  unfold Impl.frameRows at h
+  simp only at h
+  obtain ⟨h1, h2⟩ := walk_ok _ _ _ _ _ _ _ _ h
+  have hm := mem_uniqueNat ((shiftIds raw.nlist).map (·.1)) (a + 1)
+  rw [h1, ← h2, List.mem_range'_1, firsts_shiftIds] at hm
+  constructor
+  · rintro ⟨j, hj⟩
+    have : a + 1 ∈ raw.nlist.map fun p => p.1 + 1 := List.mem_map.mpr ⟨(a, j), hj, rfl⟩
+    have := hm.mpr this
+    omega
+  · intro ha
+    have := hm.mp ⟨by omega, by omega⟩
+    obtain ⟨p, hp, hpa⟩ := List.mem_map.mp this
+    exact ⟨p.2, by have : p.1 = a := by omega
+                   rw [← this]; exact hp⟩
+
 end Walk
+
+/-! ## what is written: relation and bonds -/
+section Written
+variable {α : Type}
+
+theorem repr_inj {a b : ℕ} (h : Nat.repr a = Nat.repr b) : a = b := by
+  have := congrArg String.toNat? h
+  simpa [Nat.toNat?_repr] using this
+
+theorem mem_adj (raw : Raw α) (i j : ℕ) : j ∈ adj raw i ↔ (i, j) ∈ raw.nlist := by
+  unfold adj
+  simp only [List.mem_map, List.mem_filter, decide_eq_true_eq]
+  constructor
+  · rintro ⟨p, ⟨hp, rfl⟩, rfl⟩; exact hp
+  · intro h; exact ⟨(i, j), ⟨h, rfl⟩, rfl⟩
+
+theorem count_adj (raw : Raw α) (i j : ℕ) : (adj raw i).count j = raw.nlist.count (i, j) := by
+  unfold adj
+  induction raw.nlist with
+  | nil => rfl
+  | cons p t ih =>
+    by_cases h1 : p.1 = i
+    · rw [List.filter_cons_of_pos (by simpa using h1), List.map_cons, List.count_cons, List.count_cons, ih]
+      congr 1
+      by_cases h2 : p.2 = j
+      · have : p = (i, j) := Prod.ext h1 h2
+        simp [this]
+      · have : ¬ p = (i, j) := fun e => h2 (by rw [e])
+        simp [h2, this]
+    · rw [List.filter_cons_of_neg (by simpa using h1), List.count_cons, ih]
+      have : ¬ p = (i, j) := fun e => h1 (by rw [e])
+      simp [this]
+
+/-- line `i+1` of a rendered neighbour frame -/
+theorem neighborFrame_line (raw : Raw α) (N i : ℕ) (hi : i < N) :
+    (Spec.neighborFrame raw N).getD (i + 1) [] = rowLine i (idToks (adj raw i)) := by
+  unfold Spec.neighborFrame render renderTok adjTable
+  rw [List.getD_cons_succ]
+  have := getD_renderRows 0 (((List.range N).map (adj raw)).map idToks) [] i (by simpa using hi)
+  rw [List.append_nil, Nat.zero_add] at this
+  rw [this]
+  congr 1
+  rw [List.getD_eq_getElem?_getD, List.getElem?_map, List.getElem?_map, List.getElem?_range hi]
+  rfl
+
+theorem fileRel_neighborFrame (raw : Raw α) (N i j : ℕ) (hi : i < N) :
+    fileRel (Spec.neighborFrame raw N) i j ↔ (i, j) ∈ raw.nlist := by
+  unfold fileRel
+  rw [neighborFrame_line raw N i hi, ← mem_adj]
+  simp only [rowLine, List.drop_succ_cons, List.drop_zero, idToks, idToksOff, List.mem_map]
+  constructor
+  · rintro ⟨j', hj', he⟩
+    have := repr_inj he
+    have : j' = j := by omega
+    rw [← this]; exact hj'
+  · intro h; exact ⟨j, h, rfl⟩
+
+theorem filter_lt_succ_sorted {β : Type} (key : β → ℕ) (l : List β) (hs : l.Pairwise fun a b => key a ≤ key b) (N : ℕ) :
+    l.filter (fun p => decide (key p < N)) ++ l.filter (fun p => decide (key p = N))
+      = l.filter (fun p => decide (key p < N + 1)) := by
+  set l' := l.filter (fun p => decide (key p < N + 1)) with hl'
+  have hs' : l'.Pairwise fun a b => key a ≤ key b := hs.sublist List.filter_sublist
+  have h := split_sorted key l' hs' N
+  have h1 : l'.filter (fun p => decide (key p < N)) = l.filter (fun p => decide (key p < N)) := by
+    rw [hl', List.filter_filter]
+    apply List.filter_congr
+    intro b _
+    by_cases hb : key b < N
+    · simp [hb]; omega
+    · simp [hb]
+  have h2 : l'.filter (fun p => decide (N ≤ key p)) = l.filter (fun p => decide (key p = N)) := by
+    rw [hl', List.filter_filter]
+    apply List.filter_congr
+    intro b _
+    by_cases hb : key b = N
+    · simp [hb]
+    · simp [hb]; omega
+  rw [h1, h2] at h
+  exact h.symm
+
+/-- a sorted list is the concatenation of its blocks -/
+theorem flatMap_blocks {β : Type} (key : β → ℕ) (l : List β) (hs : l.Pairwise fun a b => key a ≤ key b) (N : ℕ) :
+    (List.range N).flatMap (fun i => l.filter (fun p => decide (key p = i)))
+      = l.filter (fun p => decide (key p < N)) := by
+  induction N with
+  | zero => simp
+  | succ N ih => rw [List.range_succ, List.flatMap_append, ih]; simp [filter_lt_succ_sorted key l hs N]
+
+/-- freud's bond list `(i, j, weight)` is exactly what the rows of the files contain, in the same order -/
+theorem bonds_preserved (raw : Raw α) (N : ℕ) (h : WF raw N) :
+    (List.range N).flatMap (fun i => ((adj raw i).zip (adjW raw i)).map fun q => (i, q.1, q.2))
+      = (raw.nlist.zip raw.weights).map fun p => (p.1.1, p.1.2, p.2) := by
+  have hz1 : (raw.nlist.zip raw.weights).map (·.1) = raw.nlist := List.map_fst_zip (by rw [h.wlen])
+  have hzs : (raw.nlist.zip raw.weights).Pairwise fun a b => a.1.1 ≤ b.1.1 := by
+    have := h.sorted
+    rw [← hz1, List.pairwise_map] at this
+    exact this
+  have hb : ∀ p ∈ raw.nlist.zip raw.weights, p.1.1 < N := by
+    intro p hp
+    exact h.bound p.1 (by rw [← hz1]; exact List.mem_map.mpr ⟨p, hp, rfl⟩)
+  have hrow : ∀ i, ((adj raw i).zip (adjW raw i)).map (fun q => (i, q.1, q.2))
+      = ((raw.nlist.zip raw.weights).filter fun p => decide (p.1.1 = i)).map fun p => (p.1.1, p.1.2, p.2) := by
+    intro i
+    have hadj : adj raw i = ((raw.nlist.zip raw.weights).filter fun p => decide (p.1.1 = i)).map (·.1.2) := by
+      unfold adj
+      conv_lhs => rw [← hz1, List.filter_map, List.map_map]
+      rfl
+    rw [hadj]
+    unfold adjW
+    rw [List.zip_map', List.map_map]
+    apply List.map_congr_left
+    intro p hp
+    have := (List.mem_filter.mp hp).2
+    simp only [decide_eq_true_eq] at this
+    simp [this]
+  simp only [hrow]
+  rw [← List.map_flatMap, flatMap_blocks _ _ hzs N, List.filter_eq_self.mpr (by intro p hp; simpa using hb p hp)]
+
+end Written
+
+/-! ## `%.6f` -/
+section Round
+variable {K : Type} [Field K] [LinearOrder K] [IsStrictOrderedRing K]
+
+/-- `float("%.6f" % x)`: `x` rounded to 6 decimals -/
+def round6 (rint : K → ℤ) (x : K) : K := (rint (x * 10 ^ 6) : K) / 10 ^ 6
+
+theorem round6_err (rint : K → ℤ) (hr : IsRintHE rint) (x : K) : |round6 rint x - x| ≤ 1 / 2 / 10 ^ 6 := by
+  unfold round6
+  have h := hr.near (x * 10 ^ 6)
+  have hp : (0 : K) < 10 ^ 6 := by positivity
+  have e : (rint (x * 10 ^ 6) : K) / 10 ^ 6 - x = -((x * 10 ^ 6 - (rint (x * 10 ^ 6) : K)) / 10 ^ 6) := by
+    field_simp; ring
+  rw [e, abs_neg, abs_div, abs_of_pos hp]
+  exact div_le_div_of_nonneg_right h hp.le
+
+theorem round6_close (rint : K → ℤ) (hr : IsRintHE rint) (a b : K) :
+    |round6 rint a - round6 rint b| ≤ |a - b| + 1 / 10 ^ 6 := by
+  have h1 := round6_err rint hr a
+  have h2 := round6_err rint hr b
+  have e : round6 rint a - round6 rint b = (round6 rint a - a) + (a - b) - (round6 rint b - b) := by ring
+  rw [e]
+  have h3 := abs_sub (round6 rint a - a + (a - b)) (round6 rint b - b)
+  have h4 := abs_add_le (round6 rint a - a) (a - b)
+  have e2 : (1 : K) / 10 ^ 6 = 1 / 2 / 10 ^ 6 + 1 / 2 / 10 ^ 6 := by ring
+  linarith
+
+theorem round6_nonneg (rint : K → ℤ) (hr : IsRintHE rint) (x : K) (hx : 0 ≤ x) : 0 ≤ round6 rint x := by
+  unfold round6
+  have hp : (0 : K) < 10 ^ 6 := by positivity
+  apply div_nonneg _ hp.le
+  have h := abs_le.mp (hr.near (x * 10 ^ 6))
+  have h0 : (0 : K) ≤ x * 10 ^ 6 := mul_nonneg hx hp.le
+  generalize x * 10 ^ 6 = y at h h0 ⊢
+  have : (-1 : K) < (rint y : K) := by linarith [h.2]
+  have : (-1 : ℤ) < rint y := by exact_mod_cast this
+  exact_mod_cast (show (0 : ℤ) ≤ rint y by omega)
+
+theorem round6_pos (rint : K → ℤ) (hr : IsRintHE rint) (x : K) (hx : 1 / 10 ^ 6 ≤ x) : 0 < round6 rint x := by
+  unfold round6
+  have hp : (0 : K) < 10 ^ 6 := by positivity
+  apply div_pos _ hp
+  have h := abs_le.mp (hr.near (x * 10 ^ 6))
+  have h1 : (1 : K) ≤ x * 10 ^ 6 := by
+    have := mul_le_mul_of_nonneg_right hx hp.le
+    rwa [div_mul_cancel₀ _ hp.ne'] at this
+  generalize x * 10 ^ 6 = y at h h1 ⊢
+  linarith [h.2]
+
+theorem sum_round6 (rint : K → ℤ) (hr : IsRintHE rint) (l : List K) :
+    |(l.map (round6 rint)).sum - l.sum| ≤ (l.length : K) * (1 / 2 / 10 ^ 6) := by
+  induction l with
+  | nil => simp
+  | cons a t ih =>
+    simp only [List.map_cons, List.sum_cons, List.length_cons]
+    have e : round6 rint a + (t.map (round6 rint)).sum - (a + t.sum)
+        = (round6 rint a - a) + ((t.map (round6 rint)).sum - t.sum) := by ring
+    rw [e]
+    have := abs_add_le (round6 rint a - a) ((t.map (round6 rint)).sum - t.sum)
+    have h1 := round6_err rint hr a
+    push_cast
+    linarith
+
+end Round
 
 end Pms.Voro
